@@ -565,3 +565,30 @@ Example C06_volume_three_directions_instance :
   eqLQ (v_Uu (fst r')) (v_Uu exVm) = true /\ eqLQ (v_Uv (fst r')) (v_Uv exVm) = true /\ eqLQ (v_Uw (fst r')) (v_Uw exVm) = true /\
   eqLLQ (v_P (fst r')) (v_P exVm) = true.
 Proof. cbv zeta. repeat split; vm_compute; congruence. Qed.
+
+(* ====================== TRANSLATOR TIE (Proofs/GenTie*.v) ======================
+   coq/Gen/*.v is the Gallina rendering of the Python source produced by harness/pytrans.py; every run of ./check regenerates it
+   from /repo and compares it function by function with the committed text (evidence: translator_tie).  The theorems below say
+   that the hand-written model (the subject of the theorems above) computes, for ALL inputs satisfying the stated
+   well-formedness, exactly what the translated source computes.  This block stays LAST in the file: its imports shadow
+   model names. *)
+From Coq Require Import List QArith Reals Qreals Lia Lra Arith Bool ZArith.
+From NV Require Import Scalar.Ops Model.Common Model.Basis Model.Knots Model.KnotIns Model.KnotRem Model.LinAlg Model.Degree
+  Gen.Prelude Gen.LinalgInternal Gen.Linalg Gen.Knotvector Gen.Helpers
+  Proofs.GenTieSums Proofs.GenTieLinAlg Proofs.GenTieSubst Proofs.GenTieLU Proofs.GenTieLUSolve Proofs.GenTieKnotRem Proofs.GenTieDegree
+  Proofs.GenTieLib Proofs.GenTieKnots Proofs.GenTieSpan Proofs.GenTieBasis Proofs.GenTieBasisOne
+  Proofs.GenTieDersOne Proofs.GenTieDersLib Proofs.GenTieDers Proofs.GenTieKnotIns.
+Local Open Scope nat_scope.
+
+(* [G] helpers.knot_removal_kv; wf: span + 1 <= len(knotvector), r <= span + 1 *)
+Theorem C06_gen_knot_removal_kv_R : forall (U : list R) (span r : nat),
+  S span <= length U -> r <= S span ->
+  Helpers.knot_removal_kv Rops U (Z.of_nat span) (Z.of_nat r) = GOk (KnotRem.knot_removal_kv U span r).
+Proof. exact knot_removal_kv_tie_R. Qed.
+Print Assumptions C06_gen_knot_removal_kv_R.
+Theorem C06_gen_knot_removal_kv_Q : forall (U : list Q) (span r : nat),
+  S span <= length U -> r <= S span ->
+  Helpers.knot_removal_kv Qops U (Z.of_nat span) (Z.of_nat r) = GOk (KnotRem.knot_removal_kv U span r).
+Proof. exact knot_removal_kv_tie_Q. Qed.
+Print Assumptions C06_gen_knot_removal_kv_Q.
+
